@@ -19,6 +19,7 @@ from common import *
 CH = {"dq": '"', "sp": " ", "eacute": "é"}
 ALPHABET = 'aA1_." é'
 KNOWN_EMPTY = "empty-identifier-part"
+KNOWN_UNPARSER = "unparser-adjacent-double-quotes"
 
 
 def s(tokens):
@@ -34,7 +35,7 @@ def cfg_text(b, emit):
 
 # identifiers' max length per kind/arity (99 = none)
 EMIT_BOUNDS = dict(T1=3, T2=2, T3=1, C1=3, C2=2, C3=1, C4=1, S1=3, S2=1, XT=2, XC=2)
-BIG_BOUNDS_Q = dict(T1=3, T2=3, T3=2, C1=99, C2=99, C3=99, C4=99, S1=99, S2=99, XT=3, XC=0)
+BIG_BOUNDS_Q = dict(T1=3, T2=3, T3=1, C1=99, C2=99, C3=99, C4=99, S1=99, S2=99, XT=3, XC=0)
 BIG_BOUNDS_T = dict(T1=4, T2=3, T3=2, C1=4, C2=3, C3=2, C4=1, S1=3, S2=2, XT=3, XC=3)
 
 
@@ -59,6 +60,12 @@ def run(ctx):
         for f in summary["failures_empty_identifier"][:1]:
             report_violation(ctx, {"case": {"kind": f["kind"], "parts": f["parts"]}, "observed": f,
                                    "oracle": "Parse(Render(ref)) = ref (QuoteIdent.tla RoundTrip)"}, key=KNOWN_EMPTY)
+        if summary["unparser_adjacent_quotes"]["n"]:
+            f = summary["unparser_adjacent_quotes"]["sample"]
+            report_violation(ctx, {"case": {"kind": f["kind"], "parts": f["parts"]}, "observed": f,
+                                   "oracle": "generated SQL for a column must resolve to the same column"}, key=KNOWN_UNPARSER)
+        for r_ in summary["sql_rejected_unexplained"][:5]:
+            report_violation(ctx, {"case": case, "observed": r_, "oracle": "the SQL front end must read a rendered name back"})
         write_evidence(ctx, "model_checking", {"states": 1, "transitions": 1, "traces_validated_against_impl": summary["evaluations"],
                                                "samples": [rp["case"]]})
         return
@@ -91,10 +98,11 @@ def run(ctx):
     # 2. replay
     inp = [{"k": c["k"], "p": [s(x) for x in c["p"]]} for c in cases]
     write_ndjson(ctx.path("cases.ndjson"), inp)
-    native = "T:2:3,T:3:2,C:2:3,S:2:2" if ctx.quick else "T:1:5,T:2:3,T:3:2,C:2:3,C:3:2,C:4:2,S:2:3"
+    native = "T:2:3,T:3:2,C:2:3,S:2:2" if ctx.quick else "T:1:5,T:2:3,T:3:2,C:2:3,C:3:2,S:2:3"
     summary, _ = run_harness(ctx, "vtext", ["c52", "--in", ctx.path("cases.ndjson"), "--out", ctx.path("out.ndjson"),
                                             "--native", native, "--alphabet", ALPHABET, "--with-empty",
-                                            "--sql-every", 53 if ctx.quick else 7, "--keywords"], timeout=3000)
+                                            "--sql-every", 53 if ctx.quick else 7, "--keywords",
+                                            "--random", 20000 if ctx.quick else 400000], timeout=3000)
     out = read_ndjson(ctx.path("out.ndjson"))
     if len(out) != len(cases):
         raise ToolError("harness answered a different number of cases")
@@ -115,6 +123,11 @@ def run(ctx):
     for f in summary["failures_empty_identifier"][:1]:
         report_violation(ctx, {"case": {"kind": f["kind"], "parts": f["parts"]}, "observed": f,
                                "oracle": "Parse(Render(ref)) = ref (QuoteIdent.tla RoundTrip)"}, key=KNOWN_EMPTY)
+    ua = summary["unparser_adjacent_quotes"]
+    if ua["n"]:
+        f = ua["sample"]
+        report_violation(ctx, {"case": {"kind": f["kind"], "parts": f["parts"]}, "observed": f,
+                               "oracle": "generated SQL for a column must resolve to the same column"}, key=KNOWN_UNPARSER)
     for f in summary["failures"][:10]:
         report_violation(ctx, {"case": {"kind": f["kind"], "parts": f["parts"]}, "observed": f,
                                "oracle": "Parse(Render(ref)) = ref (QuoteIdent.tla RoundTrip): the text the engine rendered was parsed by the engine to a different reference"})
@@ -136,8 +149,10 @@ def run(ctx):
         "emitted_case_shapes": shape_tot,
         "native_scope": summary["native"],
         "keyword_sweep": summary.get("keywords"),
+        "random_wide_alphabet": summary.get("random"),
         "path_checks": summary["path_checks"],
         "round_trip_failures": summary["n_failures"],
+        "unparser_failures_on_adjacent_double_quotes": ua["n"],
         "round_trip_failures_with_empty_identifier_part": summary["n_failures_empty_identifier"],
         "sql_rejected": summary["sql_rejected"],
         "sql_rejected_samples": summary["sql_rejected_samples"][:4],
@@ -145,6 +160,7 @@ def run(ctx):
         "rule": "a case is one reference (kind, parts); every reference over identifiers <= L chars of the 8-char alphabet (empty identifier included) is enumerated; distinct = distinct references",
     }, assumptions=[
         "domain: every identifier including the empty one (stated in QuoteIdent.tla); the empty identifier in a multi-part name is the known finding C52-empty-identifier",
+        "known finding C52-unparser-adjacent-quotes: the SQL unparser (sqlparser's Ident Display) leaves two adjacent double quotes inside an identifier unescaped; failures of that path on such identifiers are keyed to it",
         "the harness is built with datafusion-common's `sql` feature (the sqlparser-based parse_identifiers); the feature-less fallback parser is not compiled into this build",
         "a rendered text that differs from the TLA+ Render but still parses back to the same reference is reported as render_drift, not as a violation",
         "SQL statements using reserved keywords as bare names may be rejected by the SQL parser; only a *different* resolved object is a violation there",
